@@ -15,7 +15,7 @@ SCOPE = {
     'C07': ('yatiml.dumper:',), 'C08': _LOAD + ('yatiml.helpers:UnknownNode.', 'yatiml.irecognizer:'), 'C09': ('yatiml.loader:Loader.',),
     'C10': ('savorize', 'sweeten'), 'C11': ('yatiml',), 'C12': ('yatiml.loader:load_function', 'yatiml.dumper:dump'),
     'C13': _LOAD, 'C14': ('yatiml.helpers:Node.',), 'C15': ('yatiml.helpers:Node.',), 'C16': ('yatiml.helpers:UnknownNode.',),
-    'C17': ('yatiml.irecognizer:', 'yatiml.recognizer:', 'yatiml.exceptions:'), 'C18': _LOAD,
+    'C17': ('yatiml.irecognizer:', 'yatiml.recognizer:', 'yatiml.exceptions:', 'yatiml.constructors:', 'yatiml.loader:'), 'C18': _LOAD,
 }
 
 _CONTROL_BAD = {'yatiml.ctl': '''
